@@ -50,7 +50,7 @@ def load_obligations():
         o.setdefault("bound", "")
         o.setdefault("assumes", [])
         o.setdefault("covers", True)
-        o.setdefault("mem_gb", 8)
+        o.setdefault("mem_gb", 4)
         assert o["kind"] in PROOF_KINDS | OTHER_KINDS, o["kind"]
         assert o["backend"] in ("kani", "verus", "tsig", "syntactic"), o["backend"]
     return data.get("property", {}), obs
@@ -158,7 +158,32 @@ def harness_index(am):
             if name in idx:
                 raise ToolError("duplicate harness name " + name)
             idx[name] = modpath + "::" + name
+        # instances generated by the `instances! { name => body; .. }` macro of the harness modules
+        for blk in re.finditer(r"instances!\s*\{(.*?)\n\}", txt, re.S):
+            for mm in re.finditer(r"^\s*(\w+)\s*=>", blk.group(1), re.M):
+                name = mm.group(1)
+                if name in idx:
+                    raise ToolError("duplicate harness name " + name)
+                idx[name] = modpath + "::" + name
     return idx
+
+
+def expand_harnesses(o, hidx):
+    """An obligation names one harness, a list, or a prefix glob `name*` (all generated instances)."""
+    import fnmatch
+    hs = o["harness"] if isinstance(o["harness"], list) else [o["harness"]]
+    out = []
+    for h in hs:
+        if "*" in h:
+            m = sorted(n for n in hidx if fnmatch.fnmatchcase(n, h))
+            if not m:
+                raise ToolError("harness pattern %s of %s matches nothing" % (h, o["id"]))
+            out += m
+        else:
+            if h not in hidx:
+                raise ToolError("harness %s of %s not found in overlay" % (h, o["id"]))
+            out.append(h)
+    return out
 
 
 def limit_mem(gb):
@@ -237,40 +262,63 @@ def kani_group_key(o):
 
 
 def run_kani_group(am, tdir, feats, flags, obs, hidx, jobs, extra=None):
-    """One cargo-kani invocation for all harnesses of the group. Returns {obl id: result dict}, raw output."""
+    """One cargo-kani invocation for all harnesses of the group. Returns {obl id: aggregated result}."""
     cmd = ["cargo", "kani", "--no-default-features"]
     if feats:
         cmd += ["--features", feats]
     cmd += ["-Z", "stubbing", "-Z", "function-contracts", "--output-format", "terse"]
     cmd += list(flags)
-    names = []
+    per_ob = {}
+    n = 0
     for o in obs:
-        if o["harness"] not in hidx:
-            raise ToolError("harness %s of %s not found in overlay" % (o["harness"], o["id"]))
-        names.append(hidx[o["harness"]])
-        cmd += ["--harness", hidx[o["harness"]], "--exact"] if False else ["--harness", hidx[o["harness"]]]
+        per_ob[o["id"]] = expand_harnesses(o, hidx)
+        for h in per_ob[o["id"]]:
+            cmd += ["--harness", hidx[h]]
+            n += 1
     cmd += ["--exact"]
-    if len(obs) > 1 and jobs > 1:
-        cmd += ["-j", str(min(jobs, len(obs)))]
+    if n > 1 and jobs > 1:
+        cmd += ["-j", str(min(jobs, n))]
     if extra:
         cmd += extra
-    timeout = max(o["timeout"] for o in obs) + 240
+    par = max(1, min(jobs, n))
+    timeout = int(sum(o["timeout"] * len(per_ob[o["id"]]) for o in obs) / par) + max(o["timeout"] for o in obs) + 240
     env = dict(ENV, CARGO_TARGET_DIR=tdir)
-    log("kani group features=[%s] flags=%s harnesses=%d" % (feats, " ".join(flags), len(obs)))
+    log("kani group features=[%s] flags=%s obligations=%d harnesses=%d -j %d" % (feats, " ".join(flags), len(obs), n, par))
     rc, out, dt, timed_out = run_cmd(cmd, am, timeout, env)
     parsed = parse_kani_output(out)
     results = {}
     for o in obs:
-        full = hidx[o["harness"]]
-        r = parsed.get(full)
-        if r is None:
-            cerr = re.findall(r"^error(?:\[E\d+\])?: .*$", out, re.M)
-            r = {"status": "tool", "failed_checks": [], "covers": None, "time": None,
-                 "text": ("timeout after %ds" % timeout) if timed_out else ("no result block; " + "; ".join(cerr[:5]) + "\n" + out[-3000:])}
-        elif r["status"] == "unknown":
-            r["status"] = "tool"
-            r["text"] = ("timeout " if timed_out else "no verdict ") + r["text"][-2000:]
-        results[o["id"]] = r
+        agg = {"status": "success", "failed_checks": [], "covers": None, "time": 0.0, "text": "", "checks": 0, "instances": [], "failed_harness": None}
+        cs = ct = 0
+        for h in per_ob[o["id"]]:
+            full = hidx[h]
+            r = parsed.get(full)
+            if r is None:
+                cerr = re.findall(r"^error(?:\[E\d+\])?: .*$", out, re.M)
+                r = {"status": "tool", "failed_checks": [], "covers": None, "time": None,
+                     "text": ("timeout after %ds" % timeout) if timed_out else ("no result block for %s; " % h + "; ".join(cerr[:5]) + "\n" + out[-2000:])}
+            elif r["status"] == "unknown":
+                r["status"] = "tool"
+                r["text"] = ("timeout " if timed_out else "no verdict ") + r["text"][-1500:]
+            agg["instances"].append({"harness": h, "status": r["status"], "time": r.get("time"), "checks": r.get("checks")})
+            agg["time"] += r.get("time") or 0.0
+            agg["checks"] += r.get("checks") or 0
+            if r.get("covers"):
+                cs += r["covers"][0]; ct += r["covers"][1]
+            if r["status"] == "failed":
+                if agg["status"] != "failed":
+                    agg["failed_harness"] = h
+                    agg["text"] = r["text"]
+                agg["status"] = "failed"
+                for fc in r["failed_checks"]:
+                    fc = dict(fc, harness=h)
+                    agg["failed_checks"].append(fc)
+            elif r["status"] == "tool" and agg["status"] == "success":
+                agg["status"] = "tool"
+                agg["text"] = "%s: %s" % (h, r["text"])
+        if ct:
+            agg["covers"] = (cs, ct)
+        results[o["id"]] = agg
     return results, out, dt, " ".join(cmd)
 
 
@@ -471,6 +519,12 @@ def main():
             only = set(args[i + 1].split(",")); i += 2
         elif args[i] == "--keep":
             keep = True; i += 1
+        elif args[i] == "--prepare-only":
+            # developer aid: build the scratch copy + overlay and print its path
+            sdir, am = make_scratch(prop + ".dev")
+            apply_overlay(am)
+            print(am)
+            return 0
         else:
             print("unknown argument", args[i]); return 2
     seed = int(os.environ.get("VERIF_SEED", "0") or 0)
@@ -556,8 +610,8 @@ def main():
             tdir = tdir_base + "-" + (hashlib.md5((feats).encode()).hexdigest()[:6])
             run_obs = list(gobs)
             if first:
-                run_obs = run_obs + [{"id": "canary.kani", "harness": "amv_canary_false", "timeout": 60}]
-            gj = max(1, min(jobs, int(48 // max(o.get("mem_gb", 8) for o in gobs))))
+                run_obs = run_obs + [{"id": "canary.kani", "harness": "amv_canary_false", "timeout": 60, "mem_gb": 1}]
+            gj = max(1, min(jobs, int(48 // max(o.get("mem_gb", 4) for o in gobs))))
             res, out, dt, cmd = run_kani_group(am, tdir, feats, flags, run_obs, hidx, gj)
             cmds.append(cmd)
             if first:
@@ -613,10 +667,12 @@ def main():
             if o["backend"] == "kani" and o["replay"] == "values":
                 feats, flags = kani_group_key(o)
                 tdir = tdir_base + "-" + (hashlib.md5((feats).encode()).hexdigest()[:6])
-                vals, pout = playback_values(am, tdir, feats, flags, hidx[o["harness"]])
+                fh = r.get("failed_harness") or expand_harnesses(o, hidx)[0]
+                rec["harness"] = fh
+                vals, pout = playback_values(am, tdir, feats, flags, hidx[fh])
                 rec["values"] = vals
                 if vals is not None:
-                    nat = native_replay(am, tdir_base, feats, hidx[o["harness"]], vals)
+                    nat = native_replay(am, tdir_base, feats, hidx[fh], vals)
                     rec["native"] = nat
                     if nat["reproduced"]:
                         suffix = ""
@@ -644,7 +700,7 @@ def main():
             r = results.get(o["id"], {})
             per_ob.append({"id": o["id"], "kind": o["kind"], "backend": o["backend"], "bound": o["bound"], "tier": o["tier"],
                            "status": r.get("status"), "solver_s": r.get("time"), "checks": r.get("checks"), "covers": r.get("covers"),
-                           "desc": o.get("desc", ""), "assumes": o["assumes"],
+                           "desc": o.get("desc", ""), "assumes": o["assumes"], "instances": r.get("instances"),
                            "extract": r.get("extract"), "times_ms": r.get("times_ms")})
         assumptions = list(pinfo.get("assumptions", [])) + props.get("_common", {}).get("assumptions", [])
         cov = {
